@@ -165,6 +165,16 @@ class _Req:
 _saved = {}
 
 
+def _untraced():
+    """context manager: CrossHair's tracer off (symbolic mode) / nothing (real mode)"""
+    from vt import world
+    if world.MODE == "sym":
+        from crosshair.core import NoTracing
+        return NoTracing()
+    import contextlib
+    return contextlib.nullcontext()
+
+
 def _patch():
     for n, v in (("web", _Web), ("asyncio", _Asyncio), ("logging", NoLog)):
         _saved[n] = getattr(WEB, n); setattr(WEB, n, v)
@@ -193,25 +203,30 @@ def routes(ng: int, npost: int, r1: int, m1: int, r2: int, m2: int, bad: int, re
     _patch()
     try:
         del LOG[:]; RAISE.clear(); del _Site.sites[:]
-        ctx = K._context._context
-        while len(ctx) > 3:
-            ctx.popleft()
-        K('get:::{}'); K('post:::{}')
         ng = pick([0, 1, 2, 3], ng); npost = pick([0, 1, 2, 3], npost)
+        shared = True if shared else False
         gp, pp = ("/r%d", "/r%d") if shared else ("/g%d", "/p%d")
-        for i in range(ng):
-            K('hg%d::{rec(%d;x)}' % (i, i)); K(('get,"' + gp + '",hg%d') % (i, i))
-        for i in range(npost):
-            K('hp%d::{rec(%d;x)}' % (i, 10 + i)); K(('post,"' + pp + '",hp%d') % (i, i))
-        # entries the server must skip: a dyad and a function call
-        K('dy::{x+y}'); K('get,"/dyad",dy')
+        # The route tables and the server are built from values that are concrete on this path (table sizes and `shared` are
+        # decided above), so the real registration code runs here with CrossHair's tracer switched off: same code, same
+        # result, native speed.  Everything that depends on a symbolic request (the closures, KGFnWrapper, .webc) runs traced.
+        with _untraced():
+            ctx = K._context._context
+            while len(ctx) > 3:
+                ctx.popleft()
+            K('get:::{}'); K('post:::{}')
+            for i in range(ng):
+                K('hg%d::{rec(%d;x)}' % (i, i)); K(('get,"' + gp + '",hg%d') % (i, i))
+            for i in range(npost):
+                K('hp%d::{rec(%d;x)}' % (i, 10 + i)); K(('post,"' + pp + '",hp%d') % (i, i))
+            # entries the server must skip: a dyad and a function call
+            K('dy::{x+y}'); K('get,"/dyad",dy')
+            K['.system'] = {'ioloop': _Loop()}
+            handle = WEB.eval_sys_fn_create_web_server(K, 8080, K('get'), K('post'))
         r2 = r1 if r2 == 0 else (r1 + 1) % 3
         if bad == 0:
             RAISE.add(r1 if m1 == 0 else 10 + r1)
         elif bad == 1:
             RAISE.add(r2 if m2 == 0 else 10 + r2)
-        K['.system'] = {'ioloop': _Loop()}
-        handle = WEB.eval_sys_fn_create_web_server(K, 8080, K('get'), K('post'))
         app = _Site.sites[0].runner.app if _Site.sites else None
         if app is None or _Site.sites[0].started != 1 or handle.port != 8080 or handle.bind is not None:
             return verdict(False)
